@@ -305,10 +305,20 @@ type DecEv struct {
 	Obs
 }
 
+// an entry point that has hung three times is not called again in this process (each hang leaves a
+// spinning goroutine behind and costs the watchdog period; three observations are enough for a verdict)
+var hangs = map[string]int{}
+
 func (s *sess) decode(op string, b []byte) {
+	if hangs[op] >= 3 {
+		return
+	}
 	in := append([]byte{}, b...) // the call gets its own copy
 	var r decRes
 	pi, hang := guarded(func() { r = decodeOp(op, in) })
+	if hang {
+		hangs[op]++
+	}
 	e := DecEv{Op: op, In: ev.Ints(b), Obs: obs(pi, hang), Proj: emptyProj(), Mm: [][]int{}}
 	if pi == nil && !hang {
 		e.Err, e.Proj, e.Mm = r.err, r.p, r.mm
@@ -378,6 +388,9 @@ func buildSrs(ss []SubResS) (upc.UEPolicySectionManagementResultContent, bool) {
 }
 
 func (s *sess) build(st St) []byte {
+	if hangs["Build"] >= 3 {
+		return nil
+	}
 	e := BuildEv{Op: "Build", St: st, Enc: []int{}, Built: emptyProj(), Dec: emptyProj(), Dmm: [][]int{}, Lenc: []int{}, Ldec: emptyProj()}
 	var enc []byte
 	pi, hang := guarded(func() {
@@ -473,6 +486,9 @@ func (s *sess) build(st St) []byte {
 		e.Derr, e.Dec, e.Dmm = r.err, r.p, r.mm
 	})
 	e.Obs = obs(pi, hang)
+	if hang {
+		hangs["Build"]++
+	}
 	if pi != nil || hang { // partial results of an aborted call are not observations
 		e.Enc, e.Built, e.Dec, e.Dmm, e.Lenc, e.Ldec = []int{}, emptyProj(), emptyProj(), [][]int{}, []int{}, emptyProj()
 		enc = nil
@@ -496,6 +512,9 @@ type PlmnEv struct {
 }
 
 func (s *sess) plmnRow(which, axis string, fixed int, vary []int) {
+	if hangs["PlmnRow"] >= 3 {
+		return
+	}
 	e := PlmnEv{Op: "PlmnRow", Which: which, Axis: axis, Fixed: fixed, Vary: vary, Errs: []bool{}, Octs: [][]int{}, Rt: [][]int{}, Rto: [][]int{}}
 	pi, hang := guarded(func() {
 		for _, v := range vary {
@@ -539,6 +558,9 @@ func (s *sess) plmnRow(which, axis string, fixed int, vary []int) {
 		}
 	})
 	e.Obs = obs(pi, hang)
+	if hang {
+		hangs["PlmnRow"]++
+	}
 	if pi != nil || hang {
 		e.Errs, e.Octs, e.Rt, e.Rto = []bool{}, [][]int{}, [][]int{}, [][]int{}
 	}
